@@ -120,6 +120,49 @@ def same(a, b):
     return len(a) == len(b) and all((x == y) or (x != x and y != y) for x, y in zip(a, b))
 
 
+NUM = r"-?(?:\d+\.?\d*|\.\d+)(?:[eE]-?\d+)?"
+REC = re.compile(rf"(?:{NUM})(?:/(?:{NUM}))?\Z")
+
+
+def to_float(txt):
+    """float nearest to the printed decimal `txt` (already matched by NUM), computed with Fraction"""
+    m = re.match(r"(-?)(\d*)\.?(\d*)(?:[eE](-?\d+))?\Z", txt)
+    sign, ip, fp, ex = m.group(1), m.group(2), m.group(3), int(m.group(4) or 0)
+    mant = int((ip + fp) or "0")
+    e = ex - len(fp)
+    nd = len(str(mant))
+    if mant == 0:
+        f = 0.0
+    elif e + nd > 400:
+        f = float("inf")
+    elif e + nd < -400:
+        f = 0.0
+    else:
+        try:
+            f = float(Fraction(mant) * Fraction(10) ** e)
+        except OverflowError:
+            f = float("inf")
+    return -f if sign else f
+
+
+def oracle(line):
+    """independent reading of a line: ('ok', values) | ('ValueError',) | ('ZeroDivisionError',) — the first
+    offending field decides, as in a left-to-right reading"""
+    t = "".join(ch for ch in line if ch not in WS and ch not in ANNOT and not ch.isspace())
+    vals = []
+    for rec in t.split("|")[:-1]:
+        if not REC.match(rec):
+            return ("ValueError",)
+        if "/" in rec:
+            a, b = rec.split("/")
+            if to_float(b) == 0.0:
+                return ("ZeroDivisionError",)
+            vals.append(to_float(a) / to_float(b))
+        else:
+            vals.append(to_float(rec))
+    return ("ok", vals)
+
+
 def independent_values(line):
     """the printed numbers, read with Fraction — for generated well-formed lines only (V/F oracle)"""
     t = "".join(ch for ch in line if ch not in WS and ch not in ANNOT)
@@ -167,7 +210,9 @@ def check(run):
         ls = [good_line(rng, 2) for _ in range(k)]
         if rng.random() < 0.6:
             i = rng.randrange(k)
-            ls[i] = rng.choice([bad_line(rng), good_line(rng, rng.choice([0, 1, 3]))])
+            ls[i] = rng.choice([bad_line(rng), good_line(rng, rng.choice([0, 1, 3])), rng.choice(["", "\n", " \t \n", "| |", "3/2 |   | 5 |"])])
+            if rng.random() < 0.3:   # a second malformed line later on: only the first may be reported
+                ls[rng.randrange(k)] = rng.choice([bad_line(rng), "", "\n"])
         level_cases.append(ls)
     if not okd:
         broken.append({"stage": "extraction", "detail": dlog[-600:]})
@@ -209,36 +254,40 @@ def check(run):
                     broken.append({"stage": "correspondence", "detail": {"lines": ls, "impl": [st, val], "model": o}})
         run.cov["traces_validated_against_impl"] = len(lines) + len(level_cases)
         run.cov["correspondence_disagreements"] = dis
-    # V/F: the property itself on the implementation, with an independent reading of the printed numbers
+    # V/F: the property itself on the implementation, against an independent reading of the printed text
+    def big(v):
+        return any(abs(x) > 1e300 or (x != 0 and abs(x) < 1e-300) for x in v)
+
     for tag, line in lines:
-        if tag != "good":
-            continue
         st, vals = impl_nist_string(line)
-        try:
-            exp = independent_values(line)
-        except ZeroDivisionError:
-            continue
-        if (st != "ok" or not same(vals, exp)) and found is None:
-            found = {"kind": "input", "what": "nist_string does not return the printed numbers", "line": line, "observed": [st, vals], "expected": exp}
+        exp = oracle(line)
+        if exp[0] == "ok" and big(exp[1]):
+            continue          # overflow / underflow to inf / 0: float(Fraction) and float(str) agree but are not "the printed number"
+        bad = (st != exp[0]) or (st == "ok" and not same(vals, exp[1]))
+        if bad and found is None:
+            found = {"kind": "input", "what": "nist_string does not return the printed numbers / does not reject a malformed line",
+                     "line": line, "observed": [st, vals], "expected": list(exp)}
     for ls in level_cases:
         st, val = impl_levels(ls)
-        firstbad = None
+        firstbad, pairs = None, []
         for i, l in enumerate(ls):
-            s1, v1 = impl_nist_string(l)
-            if s1 == "ZeroDivisionError":
+            o = oracle(l)
+            if o[0] == "ZeroDivisionError":
                 firstbad = "zd"
                 break
-            if s1 != "ok" or len(v1) != 2:
+            if o[0] != "ok" or len(o[1]) != 2:
                 firstbad = i
                 break
-        if firstbad == "zd":
+            pairs.append(tuple(o[1]))
+        if firstbad == "zd" or any(big(p) for p in pairs):
             continue
         if firstbad is None:
-            okk = st == "ok" and [tuple(parsers.nist_string(l)) for l in ls] == [tuple(p) for p in val]
+            okk = st == "ok" and [tuple(p) for p in val] == pairs
         else:
             okk = st == "LineError" and val == (firstbad, ls[firstbad])
         if not okk and found is None:
-            found = {"kind": "input", "what": "nist_energy_levels: wrong pairs or wrong first-error report", "lines": ls, "observed": [st, val], "expected_first_bad": firstbad}
+            found = {"kind": "input", "what": "nist_energy_levels: wrong pairs or wrong first-error report", "lines": ls,
+                     "observed": [st, val], "expected_first_bad": firstbad}
     run.cov["input_histogram"] = hist
     if found:
         found["broken"] = broken
@@ -255,8 +304,9 @@ def replay(path):
         return 1
     if "line" in d:
         st, vals = impl_nist_string(d["line"])
-        print(f"line={d['line']!r} implementation={st, vals} expected={d['expected']}")
-        return 0 if st == "ok" and same(vals, d["expected"]) else 1
+        exp = oracle(d["line"])
+        print(f"line={d['line']!r} implementation={st, vals} expected={exp}")
+        return 0 if st == exp[0] and (st != "ok" or same(vals, exp[1])) else 1
     st, val = impl_levels(d["lines"])
     print(f"lines={d['lines']!r} implementation={st, val} expected first bad line={d['expected_first_bad']}")
     return 1
